@@ -993,8 +993,8 @@ class ASTStubGenerator(BaseStubGenerator, mypy.traverser.TraverserVisitor):
                 and self.is_alias_expression(o.rvalue)
                 and not self.is_private_name(lvalue.name)
             ):
-                is_explicit_type_alias = (
-                    o.unanalyzed_type and getattr(o.type, "name", None) == "TypeAlias"
+                is_explicit_type_alias = o.unanalyzed_type and self.is_typing_name(
+                    getattr(o.type, "name", None), "TypeAlias"
                 )
                 if is_explicit_type_alias:
                     self.process_typealias(lvalue, o.rvalue, is_explicit_type_alias=True)
@@ -1313,6 +1313,12 @@ class ASTStubGenerator(BaseStubGenerator, mypy.traverser.TraverserVisitor):
             self._vars[-1].append(target_name)
             self.record_name(target_name)
 
+    def is_typing_name(self, name: str | None, short_name: str) -> bool:
+        """Does name (as written: 'Final', 'typing.Final', 't.Final') refer to typing's short_name?"""
+        if name is None:
+            return False
+        return self.resolve_name(name) in [f"{mod}.{short_name}" for mod in self.TYPING_MODULE_NAMES]
+
     def get_init(
         self, lvalue: str, rvalue: Expression, annotation: Type | None = None
     ) -> str | None:
@@ -1332,8 +1338,7 @@ class ASTStubGenerator(BaseStubGenerator, mypy.traverser.TraverserVisitor):
             if (
                 isinstance(annotation, UnboundType)
                 and not annotation.args
-                and annotation.name == "Final"
-                and self.import_tracker.module_for.get("Final") in self.TYPING_MODULE_NAMES
+                and self.is_typing_name(annotation.name, "Final")
             ):
                 # Final without type argument is invalid in stubs.
                 final_arg = self.get_str_type_of_node(rvalue)
